@@ -170,6 +170,6 @@ func init() {
 		}
 		u.cross([]bool{true, false})
 		rc.cov("context_templates", map[string]any{"paths": len(u.Paths), "docs": len(u.Docs), "cases": len(u.Cases)})
-		rc.execFamily(u, "C09", "C01")
+		rc.execFamily(u, "C09", "C01", "C06") // C06: Exists / First / Match about the same template
 	}
 }
